@@ -122,3 +122,24 @@ Section RecalcMin.
     - intro y. now destruct (Hpar y) as [? _].
   Qed.
 End RecalcMin.
+
+(* an invalid node cannot be forgotten: it and every ancestor that has a parent sit on needs-recalc lists, so the
+   next recalculation sweep from the root descends to it *)
+Lemma invalid_on_recalc_path m x :
+  Good nobody m -> valid (m x) = false ->
+  forall a, desc m a x -> parent (m a) <> None -> cur (m a) = LRecalc.
+Proof.
+  intros Hg Hv. pose proof (i_core _ (g_inv _ _ Hg)) as Hc. pose proof (c_wf _ Hc) as Hwf.
+  assert (Hrec : forall z, parent (m z) <> None -> rn (cur (m z)) -> cur (m z) = LRecalc).
+  { intros z Hp [Hr|Hn]; [assumption|]. destruct (parent (m z)) as [p|] eqn:Hpz; [|congruence].
+    exfalso. eapply (i_listed _ (g_inv _ _ Hg)); eauto. }
+  assert (Hup : forall a z, desc m a z -> (parent (m z) <> None -> cur (m z) = LRecalc) ->
+                            parent (m a) <> None -> cur (m a) = LRecalc).
+  { intros a z Hd. induction Hd as [|c p Hd IH Hp]; intros Hz; [assumption|].
+    apply IH. intro Hpp. apply Hrec; [assumption|]. apply (c_k1 _ Hc).
+    assert (Hcc : cur (m c) = LRecalc) by (apply Hz; congruence).
+    pose proof (wf_par _ _ Hwf c p (fun F => F) Hp) as Hin. rewrite Hcc in Hin. specialize (Hin ltac:(discriminate)).
+    simpl in Hin. intro He. rewrite He in Hin. destruct Hin. }
+  intros a Hd. apply (Hup a x Hd). intro Hp. apply Hrec; [assumption|].
+  apply (g_k2 _ _ Hg); [intros []|assumption].
+Qed.
